@@ -49,7 +49,7 @@ def run_property(prop, tier, seed, replay=None):
         bad_src = vlib.forbidden_source_scan()
         if bad_src:
             broken.append({'kind': 'forbidden-construct', 'where': bad_src[:10]})
-        ok, log = vlib.coq_make([f'Props/{prop}.vo'])
+        ok, log = vlib.coq_make([f'Props/{prop}.vo', 'Num/FloatInst.vo'] + [t for t in getattr(P, 'COQ_TARGETS', [])])
         if not ok:
             err = vlib.parse_coq_error(log) or {'error': log[-1500:]}
             thm = vlib.theorem_at(err['file'], err['line']) if 'file' in err else None
